@@ -142,6 +142,15 @@ def unavailable_for(cfg, translated):
     return [t for t in translated if "UNTRANSLATED" in t and any(t.startswith("[%s]" % g) for g in gens)]
 
 
+def differing_for(cfg, translated):
+    """status lines `… -> DIFFERS (new state): …`: the translator read the whole function and found
+    that it now takes / returns / keeps state the model definition has no counterpart for, so the
+    tie `Gen.f = Model.f` cannot even be stated.  Counts as a tie that no longer checks."""
+    gens = {TIE_GEN[m.split(".")[-1].replace("Source", "")] for m in cfg["modules"]
+            if m.split(".")[-1].replace("Source", "") in TIE_GEN}
+    return [t for t in translated if "-> DIFFERS" in t and any(t.startswith("[%s]" % g) for g in gens)]
+
+
 def lake_build(targets):
     with Lock("lake"):
         rc, out = sh(["lake", "build"] + targets, cwd=LEAN, timeout=3600)
@@ -282,6 +291,9 @@ def run_property(pid, tier, seed):
     report["translated"] = translated
     if not ok:
         broken.append("source translator failed to run")
+
+    for t in differing_for(cfg, translated):
+        broken.append("translator route: " + t)
 
     # ---- proof obligations
     targets = list(cfg["modules"]) + ["RsddModel.Audit", "rsdd_model_driver"]
